@@ -32,7 +32,9 @@ m = dict(
                   kind_free_text='verification-condition generator over the python ast of the real bisturi sources with sidecar contracts (pre/post/exceptional post/frame/loop invariants/ghost state); obligations discharged by z3 5.1, z3 4.8.12, cvc5')],
     checks=checks,
     not_applicable=na,
-    notes='See DESIGN.md. Exit protocol: 0 held, 1 violation (VIOLATION line), 2 undecided, 3 checker crash.',
+    notes='See DESIGN.md (section 0 is the status as built). Exit protocol: 0 held, 1 violation (VIOLATION line), 2 undecided, 3 checker crash. '
+          'No hooks in /repo. Genuine defects repaired in /repo by unguarded "fix:" commits (recorded as fixed: entries in known_findings.json): '
+          '761fcdc, 747be9b, 9d79700, a99f3c4, b35af89, 14eb703. Known findings (printed as KNOWN-FINDING, witness replayed natively on every run): known_findings.json.',
 )
 json.dump(m, open(os.path.join(ROOT, 'MANIFEST.json'), 'w'), indent=1)
 print('claimed', sorted(PROPERTIES), 'not applicable', [x['property_id'] for x in na])
